@@ -863,7 +863,7 @@ func c16Converters(c *Check) {
 			}
 			// locals that carry the default pair into the literal (`defaultCode, defaultEnch := 554, …`)
 			if id, ok := l.(*ast.Ident); ok {
-				if v, ok := objOf(info, id).(*types.Var); ok && !v.IsField() && v != resObj && posIn(fi.Decl.Body, v.Pos()) {
+				if v, ok := objOf(info, id).(*types.Var); ok && !v.IsField() && v != resObj && localIn(fi.Decl.Body, v) {
 					if bt, ok := v.Type().Underlying().(*types.Basic); ok && bt.Info()&types.IsInteger != 0 {
 						return "local:" + v.Name(), true
 					}
